@@ -410,6 +410,16 @@ def behaviour(kind, o):
                     out['test_all:' + tt] = _nums(list(o.test_all(test_type=tt)))
                 except Exception as exc:  # noqa: BLE001
                     out['test_all:' + tt] = 'exc:' + type(exc).__name__
+            for tt in ('t-test',):       # intervals use the dof (t quantiles)
+                try:
+                    out['get_ci:' + tt] = _nums(list(o.get_ci(0.95, test_type=tt)))
+                except Exception as exc:  # noqa: BLE001
+                    out['get_ci:' + tt] = 'exc:' + type(exc).__name__
+            for name in ('test_zero', 'test_noise', 'test_pairwise'):
+                try:
+                    out[name] = _nums(getattr(o, name)())
+                except Exception as exc:  # noqa: BLE001
+                    out[name] = 'exc:' + type(exc).__name__
             for name in ('get_means', 'get_sem', 'get_noise_ceil'):
                 try:
                     out[name] = _nums(getattr(o, name)())
